@@ -123,3 +123,21 @@ Qed.
 Theorem generated_all_ancestors_is_model (g : graph) (srcs : list nat) : gen_all_ancestors g srcs = all_ancestors_fuel g srcs.
 Proof. unfold gen_all_ancestors, all_ancestors_fuel. apply gen_anc_loop_is_anc_loop. Qed.
 Print Assumptions generated_all_ancestors_is_model.
+
+(** ** The C07 theorems, stated of the function generated from the source *)
+From UJ Require Props.C07.
+From Coq Require Import Permutation.
+
+Definition gen_kahn (g : graph) : option (list nat) := match gen_topological_sort g with KOk l => Some l | _ => None end.
+
+Lemma gen_kahn_is_kahn (g : graph) : graph_wf g -> gen_kahn g = kahn g.
+Proof. intros H. unfold gen_kahn, kahn. rewrite (generated_topological_sort_is_model g H). reflexivity. Qed.
+
+Theorem C07_cycle_rejected_on_source : forall g : graph, graph_wf g -> (gen_kahn g <> None <-> acyclic g).
+Proof. intros g H. rewrite (gen_kahn_is_kahn g H). apply Props.C07.C07_cycle_rejected. exact H. Qed.
+Print Assumptions C07_cycle_rejected_on_source.
+
+Theorem C07_kahn_order_on_source : forall (g : graph) (l : list nat), graph_wf g -> gen_kahn g = Some l ->
+  Permutation l (nodes g) /\ forall a b, edge g a b -> before a b l.
+Proof. intros g l H E. rewrite (gen_kahn_is_kahn g H) in E. apply Props.C07.C07_kahn_order; assumption. Qed.
+Print Assumptions C07_kahn_order_on_source.
